@@ -13,6 +13,7 @@ recognised (message says which); the old generated files stay in place.
 import os, re, sys, json
 sys.path.insert(0, os.path.dirname(os.path.abspath(__file__)))
 import translate_meta
+import translate_estimate
 
 REPO = os.environ.get("BS_REPO", "/repo")
 OUT = os.path.join(os.path.dirname(os.path.dirname(os.path.abspath(__file__))), "coq", "gen")
@@ -212,20 +213,36 @@ def write_if_changed(path, content):
     return False
 
 def main():
+    """Each part is translated on its own: a part that is no longer recognised leaves its generated file as it was and is
+    named on the line `translate-broken: <parts>`; bsv counts it for the properties whose theorems depend on that file."""
+    os.makedirs(OUT, exist_ok=True)
+    broken, changed, summary = [], False, {}
     try:
         c = extract()
+        s, t = render(c)
+        changed = write_if_changed(os.path.join(OUT, "Consts.v"), s) or changed
+        changed = write_if_changed(os.path.join(OUT, "HeaderText.v"), t) or changed
+        summary = {k: v for k, v in c.items() if isinstance(v, int) or k in ("K", "preamble", "line_ends")}
+    except (NoMatch, FileNotFoundError) as e:
+        broken.append(("Consts", str(e)))
+    try:
         meta_v, meta_summary = translate_meta.render(src("series/data/inline_meta/meta.rs"))
-    except (NoMatch, translate_meta.NoMatch, FileNotFoundError) as e:
-        print("translate: source item no longer recognised: %s" % e)
+        changed = write_if_changed(os.path.join(OUT, "MetaLayout.v"), meta_v) or changed
+        summary["meta_layouts"] = meta_summary
+    except (translate_meta.NoMatch, FileNotFoundError) as e:
+        broken.append(("MetaLayout", str(e)))
+    try:
+        est_v, est_summary = translate_estimate.render(src("seek/estimate.rs"))
+        changed = write_if_changed(os.path.join(OUT, "EstimateGen.v"), est_v) or changed
+        summary["estimate"] = est_summary
+    except (translate_estimate.NoMatch, FileNotFoundError) as e:
+        broken.append(("EstimateGen", str(e)))
+    if broken:
+        for part, msg in broken:
+            print("translate: source item no longer recognised (%s): %s" % (part, msg))
+        print("translate-broken: " + ",".join(part for part, _ in broken))
         return 3
-    s, t = render(c)
-    os.makedirs(OUT, exist_ok=True)
-    ch1 = write_if_changed(os.path.join(OUT, "Consts.v"), s)
-    ch2 = write_if_changed(os.path.join(OUT, "HeaderText.v"), t)
-    ch2 = write_if_changed(os.path.join(OUT, "MetaLayout.v"), meta_v) or ch2
-    summary = {k: v for k, v in c.items() if isinstance(v, int) or k in ("K", "preamble", "line_ends")}
-    summary["meta_layouts"] = meta_summary
-    print("translate: ok changed=%s %s" % (ch1 or ch2, json.dumps(summary, sort_keys=True)))
+    print("translate: ok changed=%s %s" % (changed, json.dumps(summary, sort_keys=True)))
     return 0
 
 if __name__ == "__main__":
